@@ -58,6 +58,16 @@ bool ops_bias(Ctx &c, Toks const &t)
     c.out("bf", join(o));
     return true;
   }
+  if (t[0] == "mt.mirror") {     // the hills this walker holds of each peer, by the step at which they were deposited
+    colvarbias_meta *m = dynamic_cast<colvarbias_meta *>(cvm::bias_by_name(t[1]));
+    if (!m) return true;
+    for (size_t ir = 1; ir < m->replicas.size(); ir++) {
+      std::vector<std::string> o;
+      for (auto const &h : m->replicas[ir]->hills) o.push_back(itok((long long) h.it));
+      c.out("mir_" + m->replicas[ir]->replica_id, join(o));
+    }
+    return true;
+  }
   if (t[0] == "mt.dump") {
     colvarbias_meta *m = dynamic_cast<colvarbias_meta *>(cvm::bias_by_name(t[1]));
     if (!m) { c.out("nhills", "snone"); return true; }
